@@ -333,6 +333,17 @@ static bool gen_c02(uint64_t seed, const std::string &tier, uint64_t i, Plan &p)
     else { f.kind = "error"; f.err = EIO; }
     p.faults.push_back(f);
   }
+  if (i % 8 == 5) {
+    // biased scenario: an injector stalled across the 24 h (its own alarm) and 36 h (collector) horizons while the daemon's
+    // periodic cleanup runs; the phase between injection and the cleanup period is random
+    p.faults.clear();
+    Fault f; f.actor = "qmail-queue#1"; f.call = C_ANY; f.nth = (int)r.range(8, 24); f.kind = "stall";
+    f.arg = r.pick(std::vector<int64_t>{86399, 86401, 129000, 131000, 150000, 165000, 172000, 173000, 210000, 260000});
+    p.faults.push_back(f);
+    Json ops2 = Json::arr(); bool placed = false;
+    for (auto &op : p.ops.a) { if (op.gets("op") == "inject" && !placed) { ops2.push(Json::obj().set("op", "boot")); ops2.push(Json::obj().set("op", "sleep").set("s", (long long)r.range(0, 76431))); placed = true; } if (op.gets("op") != "second_send") ops2.push(op); }
+    p.ops = ops2;
+  }
   p.ops.push(Json::obj().set("op", "settle").set("max_s", 400000));
   for (int q = 0; q < 2; q++) { p.ops.push(Json::obj().set("op", "boot")); if (r.chance(0.5)) p.ops.push(Json::obj().set("op", "sleep").set("s", (long long)r.pick(std::vector<int64_t>{76431, 129601, 300000}))); p.ops.push(Json::obj().set("op", "settle").set("max_s", 400000)); }
   p.knobs.set("max_sim_s", 4000000);
